@@ -14,7 +14,11 @@ Record prow := mkRow {
   p_rm_key : string;                 (* expression given to GetResourceManager *)
   p_method : string;                 (* manager method called *)
   p_args : list (string * string);   (* BranchResource literal: field -> expression *)
-  p_err_returns : bool;              (* `if err != nil { return err }` right after the manager call *)
+  p_err_mode : N;                    (* what follows the manager call: 1 = `if err != nil { return err }` (silence on
+                                        every failure); 2 = `if err != nil { if status == BranchStatusUnknown { return err } }`
+                                        (silence only when there is no status to report); 0 = no return on error *)
+  p_rc_err : N;                      (* ResultCode put into the response when err != nil (0 Failed, 1 Success, 9 unrecognised) *)
+  p_rc_ok : N;                       (* ResultCode when err == nil *)
   p_resp : string;                   (* response struct built *)
   p_fields : list (string * string); (* response literal: Xid / BranchId / BranchStatus -> expression *)
   p_resp_id : string;                (* first argument of SendAsyncResponse *)
@@ -80,10 +84,11 @@ Definition process_row (row : prow) (mgrs : list N) (r : req) (o : outcome) : li
         match o with
         | OPanic => [c; Panic]
         | ORet st failed =>
-            if failed && p_err_returns row then [c]
+            if failed && (N.eqb (p_err_mode row) 1 || (N.eqb (p_err_mode row) 2 && N.eqb st 0)) then [c]
             else c :: repeat (Respond (p_resp row) (eval (p_resp_id row) r st)
                                 (eval (sfind "Xid" (p_fields row)) r st) (eval (sfind "BranchId" (p_fields row)) r st)
-                                (eval (sfind "BranchStatus" (p_fields row)) r st) (if failed then 0 else 1)%N) (p_sends row)
+                                (eval (sfind "BranchStatus" (p_fields row)) r st)
+                                (if failed then p_rc_err row else p_rc_ok row)) (p_sends row)
         end
       else [Panic]       (* "No ResourceManagerCache for BranchType" *)
   | _ => [Panic]
@@ -107,18 +112,18 @@ Inductive merge {A} : list (list A) -> list A -> Prop :=
     merge (pre ++ l :: post) out -> merge (pre ++ (x :: l) :: post) (x :: out).
 
 (* ---- the two rows the property needs ---- *)
-Definition commit_row : prow :=
+Definition commit_row (mode : N) : prow :=
   mkRow "BranchCommitRequest" "request.BranchType" "BranchCommit"
         [("ResourceId", "request.ResourceId"); ("BranchId", "request.BranchId");
          ("ApplicationData", "request.ApplicationData"); ("Xid", "request.Xid")]
-        true "BranchCommitResponse"
+        mode 0 1 "BranchCommitResponse"
         [("Xid", "request.Xid"); ("BranchId", "request.BranchId"); ("BranchStatus", "status")]
         "rpcMessage.ID" 1.
-Definition rollback_row : prow :=
+Definition rollback_row (mode : N) : prow :=
   mkRow "BranchRollbackRequest" "request.BranchType" "BranchRollback"
         [("BranchType", "request.BranchType"); ("Xid", "request.Xid"); ("BranchId", "request.BranchId");
          ("ResourceId", "request.ResourceId"); ("ApplicationData", "request.ApplicationData")]
-        true "BranchRollbackResponse"
+        mode 0 1 "BranchRollbackResponse"
         [("Xid", "request.Xid"); ("BranchId", "request.BranchId"); ("BranchStatus", "status")]
         "rpcMessage.ID" 1.
 
@@ -130,7 +135,8 @@ Definition pairs_eqb (a b : list (string * string)) : bool :=
 Definition row_ok (ref row : prow) : bool :=
   (p_req row =? p_req ref) && (p_rm_key row =? p_rm_key ref) && (p_method row =? p_method ref)
   && forallb (fun f => sfind f (p_args row) =? sfind f (p_args ref)) ["Xid"; "BranchId"; "ResourceId"; "ApplicationData"]
-  && Bool.eqb (p_err_returns row) true && (p_resp row =? p_resp ref)
+  && N.eqb (p_err_mode row) (p_err_mode ref) && N.eqb (p_rc_err row) 0 && N.eqb (p_rc_ok row) 1
+  && (p_resp row =? p_resp ref)
   && forallb (fun f => sfind f (p_fields row) =? sfind f (p_fields ref)) ["Xid"; "BranchId"; "BranchStatus"]
   && (p_resp_id row =? p_resp_id ref) && (p_sends row =? 1)%nat.
 
@@ -138,7 +144,10 @@ Definition is_phase2 (p : proc) : bool := match p with PPhase2 _ => true | _ => 
 
 Definition wf_dispatch (d : list (N * proc)) : bool :=
   match plookup 3 d, plookup 5 d with
-  | Some (PPhase2 rc), Some (PPhase2 rr) => row_ok commit_row rc && row_ok rollback_row rr
+  | Some (PPhase2 rc), Some (PPhase2 rr) =>
+      (* either way of treating a manager error is a configuration the theorems cover *)
+      (N.eqb (p_err_mode rc) 1 || N.eqb (p_err_mode rc) 2) && (N.eqb (p_err_mode rr) 1 || N.eqb (p_err_mode rr) 2)
+      && row_ok (commit_row (p_err_mode rc)) rc && row_ok (rollback_row (p_err_mode rr)) rr
   | _, _ => false
   end
   && forallb (fun cp => negb (is_phase2 (snd cp)) || N.eqb (fst cp) 3 || N.eqb (fst cp) 5) d.
